@@ -73,6 +73,10 @@ def search(func, candidate, seed, tier, obligation=''):
                 for tid, m, ut in points:
                     naive = datetime.datetime.utcfromtimestamp(ut + 1)
                     forms = [('at=tid', dict(at=tid)), ('before=tid+1', dict(before=p64(u64(tid) + 1)))]
+                    if float(ut).is_integer():
+                        # the moment of the commit itself, as a datetime: `at` is inclusive
+                        forms.append(('at=utc-datetime-of-the-commit-itself',
+                                      dict(at=datetime.datetime.utcfromtimestamp(ut))))
                     if tid != points[-1][0]:
                         # a moment one second after this commit (a later commit exists)
                         forms.append(('at=naive-utc-datetime', dict(at=naive)))
